@@ -5,6 +5,7 @@ import (
 	"go/ast"
 	"go/token"
 	"go/types"
+	"golang.org/x/tools/go/cfg"
 	"strings"
 )
 
@@ -254,20 +255,45 @@ func checkRealmDiscipline(r *Reporter, p *Prog) {
 	const mp = "kvstore/mapdb"
 	info := p.Pkg(mp).TypesInfo
 	n := 0
+	// evaluated on the exported operations with their unexported helpers expanded: it does not
+	// matter whether the prefixed key is built in a helper (set/delete), in a temporary, or in
+	// the call itself
+	var roots []*ast.FuncDecl
 	for _, fd := range p.Methods(mp, "mapDB") {
-		if fd.Body == nil {
-			continue
+		if fd.Body != nil && fd.Name.IsExported() {
+			roots = append(roots, fd)
 		}
+	}
+	if fd := p.FuncDecl(mp, "batchedMutations", "Commit"); fd != nil {
+		roots = append(roots, fd)
+	}
+	for _, fd := range roots {
 		params := paramObjs(info, fd)
-		ast.Inspect(fd.Body, func(nd ast.Node) bool {
-			c, ok := nd.(*ast.CallExpr)
-			if !ok {
-				return true
+		recvName := fd.Recv.List[0].Names[0].Name
+		ownRealm := recvName + ".realm"
+		if recvTypeName(fd) == "batchedMutations" {
+			ownRealm = recvName + ".kvStore.realm"
+		}
+		f := newFuncCFG(p, info, fd.Body, funcKey(mp, fd))
+		isParam := func(e ast.Expr, pt Point, i int) bool {
+			if i >= len(params) {
+				return false
 			}
+			re, _ := f.Resolve(e, pt)
+			// a conversion of the parameter is still the parameter
+			if c, ok := ast.Unparen(re).(*ast.CallExpr); ok && len(c.Args) == 1 {
+				if tv, ok := info.Types[c.Fun]; ok && tv.IsType() {
+					re = c.Args[0]
+				}
+			}
+			return objOfIdent(info, re) == params[i]
+		}
+		for _, c := range f.Calls(func(c *ast.CallExpr) bool {
 			se, ok := ast.Unparen(c.Fun).(*ast.SelectorExpr)
-			if !ok || !fieldSel(info, se.X, "m") {
-				return true
-			}
+			return ok && fieldSel(info, se.X, "m")
+		}) {
+			se := ast.Unparen(c.Fun).(*ast.SelectorExpr)
+			pt, _ := f.PointOf(c)
 			n++
 			key := fmt.Sprintf("%s call in %s", se.Sel.Name, funcKey(mp, fd))
 			pos := p.posStr(c.Pos())
@@ -275,32 +301,31 @@ func checkRealmDiscipline(r *Reporter, p *Prog) {
 			case "get", "set", "has", "delete", "deletePrefix":
 				if len(c.Args) == 0 {
 					r.Fail("realm/key-prefixed", key, pos, "no key argument")
-					return true
+					continue
 				}
-				a := ast.Unparen(c.Args[0])
 				if fd.Name.Name == "Clear" {
-					if fieldSel(info, a, "realm") && isRecvIdent(info, fd, a.(*ast.SelectorExpr).X) {
+					if f.KeyAt(c.Args[0], pt) == ownRealm {
 						r.Pass("realm/key-prefixed", key, pos, "Clear deletes exactly the view's realm prefix")
 					} else {
 						r.Fail("realm/key-prefixed", key, pos, "Clear must delete the prefix s.realm")
 					}
-					return true
+					continue
 				}
-				cc, isCC := a.(*ast.CallExpr)
-				if !isCC || !strings.HasSuffix(exprKey(cc.Fun), "ConcatBytes") || len(cc.Args) != 2 ||
-					!fieldSel(info, cc.Args[0], "realm") || !isRecvIdent(info, fd, ast.Unparen(cc.Args[0]).(*ast.SelectorExpr).X) ||
-					len(params) == 0 || objOfIdent(info, cc.Args[1]) != params[0] {
-					r.Fail("realm/key-prefixed", key, pos, "the key handed to the shared map must be ConcatBytes(s.realm, <caller's key>) with the realm first")
-					return true
+				a, apt := f.Resolve(c.Args[0], pt)
+				cc, isCC := ast.Unparen(a).(*ast.CallExpr)
+				if !isCC || !strings.HasSuffix(exprKey(cc.Fun), "ConcatBytes") || len(cc.Args) != 2 || f.KeyAt(cc.Args[0], apt) != ownRealm ||
+					(recvTypeName(fd) == "mapDB" && !isParam(cc.Args[1], apt, 0)) {
+					r.Fail("realm/key-prefixed", key, pos, "the key handed to the shared map must be ConcatBytes(s.realm, <caller's key>) with the realm first; found "+f.KeyAt(c.Args[0], pt))
+					continue
 				}
-				if se.Sel.Name == "set" && (len(c.Args) != 2 || len(params) < 2 || objOfIdent(info, c.Args[1]) != params[1]) {
+				if se.Sel.Name == "set" && recvTypeName(fd) == "mapDB" && (len(c.Args) != 2 || !isParam(c.Args[1], pt, 1)) {
 					r.Fail("realm/key-prefixed", key, pos, "set must store the caller's value")
-					return true
+					continue
 				}
 				r.Pass("realm/key-prefixed", key, pos, "key = ConcatBytes(s.realm, caller key)")
 			case "iterate", "iterateKeys":
-				ok := len(c.Args) == 4 && fieldSel(info, c.Args[0], "realm") && len(params) == 3 &&
-					objOfIdent(info, c.Args[1]) == params[0] && objOfIdent(info, c.Args[2]) == params[1] && objOfIdent(info, c.Args[3]) == params[2] && c.Ellipsis.IsValid()
+				ok := len(c.Args) == 4 && f.KeyAt(c.Args[0], pt) == ownRealm && len(params) == 3 &&
+					isParam(c.Args[1], pt, 0) && isParam(c.Args[2], pt, 1) && isParam(c.Args[3], pt, 2) && c.Ellipsis.IsValid()
 				if ok {
 					r.Pass("realm/key-prefixed", key, pos, "iteration receives the view's realm, the caller's prefix, consumer and direction")
 				} else {
@@ -309,8 +334,7 @@ func checkRealmDiscipline(r *Reporter, p *Prog) {
 			default:
 				r.Fail("realm/key-prefixed", key, pos, "unknown operation on the shared map (not tabled)")
 			}
-			return true
-		})
+		}
 	}
 	if n < 8 {
 		r.Fail("realm/key-prefixed", mp+".mapDB", "-", fmt.Sprintf("expected at least 8 calls on the shared map, found %d (vacuous)", n))
@@ -325,31 +349,41 @@ func checkRealmDiscipline(r *Reporter, p *Prog) {
 		}
 		params := paramObjs(info, fd) // realm, keyPrefix, consume, iterDirection
 		okPrefix, okFilter, okStrip := false, false, false
-		var prefixVar types.Object
-		ast.Inspect(fd.Body, func(nd ast.Node) bool {
-			switch x := nd.(type) {
-			case *ast.AssignStmt:
-				if len(x.Rhs) == 1 {
-					if c, ok := ast.Unparen(x.Rhs[0]).(*ast.CallExpr); ok && strings.HasSuffix(exprKey(c.Fun), "ConcatBytesToString") && len(c.Args) == 2 &&
-						objOfIdent(info, c.Args[0]) == params[0] && objOfIdent(info, c.Args[1]) == params[1] {
-						okPrefix = true
-						prefixVar = objOfIdent(info, x.Lhs[0])
+		// resolved through temporaries and expanded helpers: the HasPrefix filter compares with
+		// ConcatBytesToString(realm, keyPrefix), the consumer receives key[len(realm):]
+		f := newFuncCFG(p, info, fd.Body, key)
+		isP := func(e ast.Expr, pt Point, i int) bool {
+			re, _ := f.Resolve(e, pt)
+			return objOfIdent(info, re) == params[i]
+		}
+		for _, b := range f.G.Blocks {
+			if !b.Live {
+				continue
+			}
+			for i, nd := range b.Nodes {
+				pt := Point{b, i}
+				inspectNoLit(nd, func(m ast.Node) bool {
+					x, ok := m.(*ast.CallExpr)
+					if !ok {
+						return true
 					}
-				}
-			case *ast.CallExpr:
-				if exprKey(x.Fun) == "strings.HasPrefix" && len(x.Args) == 2 && prefixVar != nil && objOfIdent(info, x.Args[1]) == prefixVar {
-					okFilter = true
-				}
-				if objOfIdent(info, x.Fun) == params[2] && len(x.Args) >= 1 {
-					if sl, ok := ast.Unparen(x.Args[0]).(*ast.SliceExpr); ok && sl.High == nil && sl.Low != nil {
-						if lc, ok := ast.Unparen(sl.Low).(*ast.CallExpr); ok && exprKey(lc.Fun) == "len" && len(lc.Args) == 1 && objOfIdent(info, lc.Args[0]) == params[0] {
-							okStrip = true
+					if exprKey(x.Fun) == "strings.HasPrefix" && len(x.Args) == 2 {
+						re, rpt := f.Resolve(x.Args[1], pt)
+						if c, ok := ast.Unparen(re).(*ast.CallExpr); ok && strings.HasSuffix(exprKey(c.Fun), "ConcatBytesToString") && len(c.Args) == 2 && isP(c.Args[0], rpt, 0) && isP(c.Args[1], rpt, 1) {
+							okPrefix, okFilter = true, true
 						}
 					}
-				}
+					if objOfIdent(info, x.Fun) == params[2] && len(x.Args) >= 1 {
+						if sl, ok := ast.Unparen(x.Args[0]).(*ast.SliceExpr); ok && sl.High == nil && sl.Low != nil {
+							if lc, ok := ast.Unparen(sl.Low).(*ast.CallExpr); ok && exprKey(lc.Fun) == "len" && len(lc.Args) == 1 && isP(lc.Args[0], pt, 0) {
+								okStrip = true
+							}
+						}
+					}
+					return true
+				})
 			}
-			return true
-		})
+		}
 		if okPrefix && okFilter && okStrip {
 			r.Pass("realm/strip", key, p.posStr(fd.Pos()), "filters on realm||prefix and reports key[len(realm):]")
 		} else {
@@ -526,28 +560,73 @@ func checkIterationOrder(r *Reporter, p *Prog) {
 		params := paramObjs(info, fd)
 		consume := params[2]
 		dir := params[3]
-		var loop *ast.RangeStmt
-		ast.Inspect(fd.Body, func(n ast.Node) bool {
-			if rs, ok := n.(*ast.RangeStmt); ok {
-				hasConsume := false
-				ast.Inspect(rs.Body, func(m ast.Node) bool {
-					if c, ok := m.(*ast.CallExpr); ok && objOfIdent(info, c.Fun) == consume {
-						hasConsume = true
-					}
-					return true
-				})
-				if hasConsume {
-					loop = rs
+		// The keys reported to the consumer are sorted with the caller's direction: a
+		// utils.SortSlice(_, <direction parameter>...) call lies on every path to the loop that
+		// invokes the consumer (in the function itself or in an expanded helper), and the loop
+		// ranges over its result.
+		fo := newFuncCFG(p, info, fd.Body, key)
+		var loop ast.Stmt
+		var theLoop *loopInfo
+		consumeCalls := fo.Find(func(n ast.Node) bool {
+			c, ok := n.(*ast.CallExpr)
+			return ok && objOfIdent(info, c.Fun) == consume
+		})
+		for _, l := range fo.Loops() {
+			l := l
+			for _, cc := range consumeCalls {
+				if fo.InLoopBody(l, cc) {
+					theLoop = &l
+					loop = l.Stmt
 				}
 			}
-			return true
-		})
-		if loop == nil {
+		}
+		if theLoop == nil {
 			r.Fail("order/sorted-direction", key, p.posStr(fd.Pos()), "no loop invoking the consumer")
 			continue
 		}
-		c, ok := ast.Unparen(loop.X).(*ast.CallExpr)
-		if !ok || !strings.HasSuffix(exprKey(c.Fun), "SortSlice") || len(c.Args) != 2 || objOfIdent(info, c.Args[1]) != dir || !c.Ellipsis.IsValid() {
+		isSortWithDir := func(n ast.Node) bool {
+			c, ok := n.(*ast.CallExpr)
+			if !ok || !strings.HasSuffix(exprKey(c.Fun), "SortSlice") || len(c.Args) != 2 || !c.Ellipsis.IsValid() {
+				return false
+			}
+			cpt, okp := fo.PointOf(c)
+			if !okp {
+				return false
+			}
+			re, _ := fo.Resolve(c.Args[1], cpt)
+			return objOfIdent(info, re) == dir
+		}
+		sorts := fo.Find(isSortWithDir)
+		okSort := len(sorts) > 0
+		if okSort {
+			// no path reaches the loop head without the sort
+			if _, found := fo.reachBlock(fo.entry(), &searchOpts{AvoidNode: isSortWithDir}, func(b *cfg.Block) bool { return b == theLoop.Head }, false); found {
+				okSort = false
+			}
+		}
+		// the loop ranges over the sorted slice (directly, or through the helper that sorts)
+		if okSort {
+			okSort = false
+			if rs, isRange := loop.(*ast.RangeStmt); isRange {
+				hpt := Point{theLoop.Head, 0}
+				re, _ := fo.Resolve(rs.X, hpt)
+				if c, isCall := ast.Unparen(re).(*ast.CallExpr); isCall {
+					if isSortWithDir(c) {
+						okSort = true
+					} else {
+						// a helper call: one of the sorts lies in its expansion
+						for _, sp := range sorts {
+							for reg := fo.regionOf[sp.B]; reg != nil; reg = reg.parent {
+								if reg.call == c {
+									okSort = true
+								}
+							}
+						}
+					}
+				}
+			}
+		}
+		if !okSort {
 			r.Fail("order/sorted-direction", key, p.posStr(loop.Pos()), "the consumer loop must range over utils.SortSlice(keys, iterDirection...) with the caller's direction forwarded")
 		} else {
 			r.Pass("order/sorted-direction", key, p.posStr(loop.Pos()), "keys are sorted with the caller's direction before they are reported")
@@ -595,24 +674,62 @@ func checkIterationOrder(r *Reporter, p *Prog) {
 		r.Unresolved("order/sortslice", "kvstore/utils.SortSlice", "function not found")
 		return
 	}
+	// whatever the dispatch form: the sort call reachable only on the `direction == Forward`
+	// edge sorts ascending, the one only on the `direction == Backward` edge sorts in reverse
 	cases := map[string]string{}
-	ast.Inspect(fd.Body, func(n ast.Node) bool {
-		cc, ok := n.(*ast.CaseClause)
-		if !ok || len(cc.List) != 1 {
-			return true
-		}
-		shape := ""
-		for _, st := range cc.Body {
-			ast.Inspect(st, func(m ast.Node) bool {
-				if c, ok := m.(*ast.CallExpr); ok && exprKey(c.Fun) == "sort.Sort" && len(c.Args) == 1 {
-					shape = exprKey(c.Args[0])
+	{
+		uinfo := p.Pkg("kvstore/utils").TypesInfo
+		f := newFuncCFG(p, uinfo, fd.Body, "SortSlice")
+		dirEdges := map[string][]Edge{}
+		f.forEachEdgeFact(func(e Edge, _ *cfg.Block, ft fact) {
+			rel, ok := relOf(ft.Atom)
+			if !ok {
+				return
+			}
+			if !ft.Pol {
+				rel = negRel(rel)
+			}
+			// the direction has exactly two values (GetIterDirection panics otherwise):
+			// `!= Backward` means Forward and vice versa
+			other := map[string]string{"IterDirectionForward": "IterDirectionBackward", "IterDirectionBackward": "IterDirectionForward"}
+			for _, d := range []string{"IterDirectionForward", "IterDirectionBackward"} {
+				if strings.HasSuffix(rel.L, d) || strings.HasSuffix(rel.R, d) {
+					switch rel.Op {
+					case "==":
+						dirEdges[d] = append(dirEdges[d], e)
+					case "!=":
+						dirEdges[other[d]] = append(dirEdges[other[d]], e)
+					}
+				}
+			}
+		})
+		for _, pt := range f.Find(func(n ast.Node) bool {
+			c, ok := n.(*ast.CallExpr)
+			return ok && strings.HasPrefix(exprKey(c.Fun), "sort.")
+		}) {
+			shape := ""
+			inspectNoLit(f.nodeAt(pt), func(m ast.Node) bool {
+				if c, ok := m.(*ast.CallExpr); ok && shape == "" {
+					switch exprKey(c.Fun) {
+					case "sort.Sort":
+						if len(c.Args) == 1 {
+							shape = exprKey(c.Args[0])
+						}
+					case "sort.Strings":
+						if len(c.Args) == 1 {
+							shape = "sort.StringSlice(" + exprKey(c.Args[0]) + ")"
+						}
+					}
 				}
 				return true
 			})
+			for d, edges := range dirEdges {
+				if _, only := f.OnlyThroughEdges(pt, edges); only {
+					cases[d] = shape
+				}
+			}
 		}
-		cases[shortTypeName(exprKey(cc.List[0]))] = shape
-		return true
-	})
+	}
 	slice := ""
 	if ps := paramObjs(p.Pkg("kvstore/utils").TypesInfo, fd); len(ps) > 0 {
 		slice = ps[0].Name()
@@ -704,34 +821,47 @@ func checkBatchDisjoint(r *Reporter, p *Prog) {
 	if fd := p.FuncDecl(mp, "batchedMutations", "Commit"); fd == nil {
 		r.Unresolved("batch/commit-applies", mp+".batchedMutations.Commit", "method not found")
 	} else {
+		// each recorded operation reaches the shared map: in the loop over setOperations a
+		// syncedKVMap.set, in the loop over deleteOperations a syncedKVMap.delete - called
+		// directly or through a helper of the view (expanded)
 		applied := map[string]string{}
-		ast.Inspect(fd.Body, func(n ast.Node) bool {
-			rs, ok := n.(*ast.RangeStmt)
-			if !ok {
-				return true
+		cf := newFuncCFG(p, info, fd.Body, "Commit")
+		for _, l := range cf.Loops() {
+			rs, isRange := l.Stmt.(*ast.RangeStmt)
+			if !isRange {
+				continue
 			}
 			se, ok := ast.Unparen(rs.X).(*ast.SelectorExpr)
 			if !ok {
-				return true
+				continue
 			}
-			ast.Inspect(rs.Body, func(m ast.Node) bool {
-				if c, ok := m.(*ast.CallExpr); ok {
-					if s2, ok := ast.Unparen(c.Fun).(*ast.SelectorExpr); ok && fieldSel(info, s2.X, "kvStore") {
-						args := []string{}
-						for _, a := range c.Args {
-							args = append(args, exprKey(a))
-						}
-						applied[se.Sel.Name] = s2.Sel.Name + "(" + strings.Join(args, ",") + ")"
-					}
+			for _, pt := range cf.Find(func(n ast.Node) bool {
+				c, ok := n.(*ast.CallExpr)
+				if !ok {
+					return false
 				}
-				return true
-			})
-			return true
-		})
-		kv := func(rs string) string { return rs }
-		_ = kv
+				s2, ok := ast.Unparen(c.Fun).(*ast.SelectorExpr)
+				return ok && fieldSel(info, s2.X, "m") && (s2.Sel.Name == "set" || s2.Sel.Name == "delete")
+			}) {
+				if !cf.InLoopBody(l, pt) {
+					continue
+				}
+				inspectNoLit(cf.nodeAt(pt), func(m ast.Node) bool {
+					if c, ok := m.(*ast.CallExpr); ok {
+						if s2, ok := ast.Unparen(c.Fun).(*ast.SelectorExpr); ok && fieldSel(info, s2.X, "m") {
+							args := []string{}
+							for _, a := range c.Args {
+								args = append(args, cf.KeyAt(a, pt))
+							}
+							applied[se.Sel.Name] = s2.Sel.Name + "(" + strings.Join(args, ",") + ")"
+						}
+					}
+					return true
+				})
+			}
+		}
 		okSet := strings.HasPrefix(applied["setOperations"], "set(") && strings.Contains(applied["setOperations"], "key") && strings.Contains(applied["setOperations"], "value")
-		okDel := strings.HasPrefix(applied["deleteOperations"], "delete(")
+		okDel := strings.HasPrefix(applied["deleteOperations"], "delete(") && strings.Contains(applied["deleteOperations"], "key")
 		if okSet && okDel {
 			r.Pass("batch/commit-applies", mp+".batchedMutations.Commit", p.posStr(fd.Pos()), "applies "+applied["setOperations"]+" and "+applied["deleteOperations"])
 		} else {
